@@ -321,6 +321,18 @@ def run(rep, tier, seed):
         for v in pool:
             for sc in (True, False):
                 cases.append((2, sc, t, v))
+    # types equal under == / hash but different (Literal[0, 1] vs Literal[False, True], ...) requested from the same retorts,
+    # bare and nested: each must keep its own rule whatever was requested before
+    lits = [[("LInt", 0), ("LInt", 1)], [("LBool", False), ("LBool", True)], [("LInt", 1), ("LStr", "a")],
+            [("LBool", True), ("LStr", "a")], [("LInt", 0)], [("LBool", False)]]
+    lpool = [("VBool", True), ("VBool", False), ("VInt", 0), ("VInt", 1), ("VFloat", 1), ("VStr", "a"), ("VNone",)]
+    for ls in lits + lits[::-1]:
+        for t, wrap in ((("TLit", ls), lambda v: v), (("TIter", "KList", ("TLit", ls), "List"), lambda v: ("VList", [v])),
+                        (("TOpt", ("TLit", ls)), lambda v: v)):
+            for v in lpool:
+                for sc in (True, False):
+                    for mi in range(3):
+                        cases.append((mi, sc, t, wrap(v)))
     expected, bad = lg.correspond(rep, PID, cases)
     nd, badd, dcases, dexp = part_dump(rep, tier, seed)
     nb, badb = part_b64(rep, tier, seed)
